@@ -314,6 +314,10 @@ impl<'p> CoroutinePool<'p> {
             self.notify(task_id);
             return Ok(r);
         }
+        if PoolState::Stopped == self.state() {
+            // nothing will ever run in this pool again: do not block for a result that can not come
+            return Ok(Err("The coroutine pool has stopped"));
+        }
         #[cfg(feature = "verif")]
         crate::verif::point("wait:checked");
         if SchedulableCoroutine::current().is_some() {
